@@ -216,11 +216,17 @@ def extinst_modules(g, rnd, n, T):
     E = {r["name"]: r for r in g.core}
     out = []
     idref, xi = g.vix["IdRef"], g.vix["LiteralExtInstInteger"]
-    for _ in range(n):
+    for mi in range(n):
         g.next_id = 1
         insts = []
         sets = []
-        for nm in (b"GLSL.std.450", b"OpenCL.std", b"NonSemantic.Other"):
+        names = [b"GLSL.std.450", b"OpenCL.std", b"NonSemantic.Other"]
+        if mi % 2 == 1:
+            # the same set imported several times under different ids, interleaved with the other sets: an instruction through ANY of the
+            # import ids of a recognised set is printed by name
+            names = names + [rnd.choice(names[:2]) for _ in range(rnd.randrange(1, 4))] + [b"GLSL.std.450", b"OpenCL.std"]
+            rnd.shuffle(names)
+        for nm in names:
             i = g.inst(E["ExtInstImport"]); i.ops[0].value = list(nm); insts.append(("imp", i)); sets.append((i.rid, nm))
         insts.append(("mm", g.inst(E["MemoryModel"])))
         insts.append(("fn:0:def", g.inst(E["Function"])))
